@@ -171,8 +171,8 @@ MUTANTS = [
     ('C18', 'premade_lib.py', "sorted_values, quantiles, method='nearest')", "sorted_values, quantiles, interpolation='nearest')",
      'V5', 'revert of fix F6'),
     # ---- C19
-    ('C19', 'kronecker_factored_lattice_lib.py', '      grad1 = tf.cast(tf.equal(num_zeros, 1), tf.float32) * prod',
-     '      grad1 = tf.cast(tf.equal(num_zeros, 2), tf.float32) * prod', 'G3', 'single-zero branch tests the wrong count'),
+    ('C19', 'kronecker_factored_lattice_lib.py', '      grad1 = tf.cast(tf.equal(num_zeros, 1), prod.dtype) * prod',
+     '      grad1 = tf.cast(tf.equal(num_zeros, 2), prod.dtype) * prod', 'G3', 'single-zero branch tests the wrong count'),
     ('C19', 'kronecker_factored_lattice_lib.py', '      return tf.expand_dims(dy, axis=axis) * (grad0 + grad1)',
      '      return tf.expand_dims(dy, axis=-1) * (grad0 + grad1)', 'G1', 'upstream gradient expanded on another axis'),
     ('C19', 'kronecker_factored_lattice_lib.py', '      grad0 = tf.math.divide_no_nan(tf.expand_dims(fwd, axis=axis), t)',
@@ -220,6 +220,11 @@ MUTANTS = [
     ('C01', 'lattice_lib.py', '  units = weights.shape[1]\n  if units > 1:\n    lattice_sizes = list(lattice_sizes) + [int(units)]\n    if monotonicities:',
      '  units = weights.shape[1]\n  lattice_sizes = list(lattice_sizes)\n  if units > 1:\n    lattice_sizes = lattice_sizes + [int(units)]\n    if monotonicities:', None, 'N: list() one statement earlier'),
     ('C12', 'lattice_lib.py', '    lattice_sizes = list(lattice_sizes) + [int(weights.shape[1])]\n    if monotonicities:', '    lattice_sizes = lattice_sizes + [int(weights.shape[1])]\n    if monotonicities:', 'T3', 'assert_constraints with tuple sizes'),
+    ('C05', 'pwl_calibration_lib.py', 'tf.ones(shape, dtype=weights.dtype)', 'tf.ones(shape)', 'D1', 'default-dtype ones in the learned-keypoint branch'),
+    ('C19', 'kronecker_factored_lattice_lib.py', '      is_zero = tf.cast(tf.equal(t, 0), t.dtype)', '      is_zero = tf.cast(tf.equal(t, 0), tf.float32)', 'D1', 'float32 mask in the custom gradient'),
+    ('C13', 'lattice_lib.py', '  if not l1 and not l2:\n    return tf.constant(0.0, shape=[], dtype=weights.dtype)', '  if not l1 and not l2:\n    return 0.0', 'D1', 'python float from the early exit'),
+    ('C05', 'pwl_calibration_layer.py', '          is_missing = tf.maximum(is_missing, equals_missing_value)', '          pass', 'E5', 'value test dropped when a flag tensor is given'),
+    ('C05', 'pwl_calibration_layer.py', '          is_missing = tf.maximum(is_missing, equals_missing_value)', '          is_missing = tf.maximum(equals_missing_value, is_missing)', None, 'N: commuted maximum'),
     ('C17', 'premade_lib.py', '        # going out of bound on the lattice\n        addition_score = -2.0',
      '        # going out of bound on the lattice\n        addition_score = -1.0', 'W7', 'full lattice ties with a repeat'),
     ('C17', 'premade_lib.py', '        # going out of bound on the lattice\n        addition_score = -2.0',
